@@ -75,7 +75,9 @@ def entry(pid, c):
     }
 
 props = [json.loads(l)["id"] for l in open(os.path.join(V, "properties.jsonl"))]
-built = [p for p in props if p in checks and os.path.exists(os.path.join(V, "harness", "mon", p.lower() + ".go")) and (BUILT is None or p in BUILT)]
+import subprocess
+registered = set(subprocess.check_output([os.path.join(V, ".bin", "vcheck"), "-list"]).decode().split())
+built = [p for p in props if p in checks and p in registered and (BUILT is None or p in BUILT)]
 m = {
     "version": 1,
     "setup_cmd": "./check --build",
